@@ -21,6 +21,8 @@ class ModelEval:
         self.dstate_n = {d["name"]: d["n"] for d in recipe["dstates"]}
         self.dchoice_n = {d["name"]: d["n"] for d in recipe["dchoices"]}
         self.stochastic = self.meta["stochastic"]
+        # continuous states by name (axes of the value arrays follow the declaration order)
+        self.cstates = {c["name"]: c for c in (recipe.get("cstate"), recipe.get("cstate2")) if c}
 
     # ------------------------------------------------------------------ function DAG
     def eval_fn(self, name, env, params, cache=None):
@@ -110,11 +112,12 @@ class ModelEval:
         for s in self.states:
             if s in self.dstate_n and s not in ss:
                 shape.append(self.dstate_n[s])
-        if self.recipe["cstate"]:
-            shape.append(self.recipe["cstate"]["n"])
+        for s in self.states:
+            if s in self.cstates:
+                shape.append(self.cstates[s]["n"])
         return tuple(shape)
 
-    def value_lookup(self, vf, period, rows: dict, grid_a=None, tol=1e-10):
+    def value_lookup(self, vf, period, rows: dict, grids=None, tol=1e-10):
         """Entries of ``vf`` (array of ``period``) at the on-grid rows.
 
         Returns (mask of rows that are on the grid, looked-up values for those rows).
@@ -132,9 +135,12 @@ class ModelEval:
         for s in self.states:
             if s in self.dstate_n and s not in ss:
                 index.append(np.asarray(rows[s]).astype(np.int64))
-        if self.recipe["cstate"]:
-            grid = np.asarray(grid_a if grid_a is not None else catalogue.grid_values(self.recipe["cstate"]))
-            a = np.asarray(rows["a"], dtype=np.float64)
+        for s in self.states:
+            if s not in self.cstates:
+                continue
+            g = (grids or {}).get(s)
+            grid = np.asarray(g if g is not None else catalogue.grid_values(self.cstates[s]))
+            a = np.asarray(rows[s], dtype=np.float64)
             pos = np.abs(a[:, None] - grid[None, :]).argmin(axis=1)
             near = np.abs(a - grid[pos]) <= tol * np.maximum(1.0, np.abs(grid[pos]))
             on &= near
